@@ -36,6 +36,23 @@ type msgInfo struct {
 	selfMade bool
 }
 
+// endpointOfTransient: key is an endpoint of a channel that was stored during
+// this step but is in neither projection (it entered the graph and a block
+// arriving inside the same burst removed it again).
+func (s *Sim) endpointOfTransient(key [33]byte, before, after *projection) bool {
+	if s.seenStored == nil {
+		return false
+	}
+	s.storedMu.Lock()
+	defer s.storedMu.Unlock()
+	for scid, c := range s.seenStored {
+		if before.chans[scid] == nil && after.chans[scid] == nil && (c.node[0] == key || c.node[1] == key) {
+			return true
+		}
+	}
+	return false
+}
+
 // fail raises a violation. If the graph holds (or held) a channel whose two
 // node ids are equal, the violation is reported under the code
 // "selfloop-channel" with the specific class as its signature: such a channel
@@ -184,6 +201,20 @@ func (s *Sim) check(what string) {
 	// ---- relays ----
 	if s.cfg.Own {
 		s.ownInbox(what)
+	}
+	if s.seenStored != nil {
+		// channels that entered the graph and left it again within this
+		// step (a block inside a burst) were in the graph all the same
+		s.storedMu.Lock()
+		for scid, c := range s.seenStored {
+			if s.everChan[scid] == nil && cur.chans[scid] == nil {
+				s.everChan[scid] = c
+				s.everEndpoint[c.node[0]] = true
+				s.everEndpoint[c.node[1]] = true
+				r.Count("probe_channel_came_and_went_within_one_step")
+			}
+		}
+		s.storedMu.Unlock()
 	}
 	for _, e := range s.w.drain() {
 		s.justifyRelay(e, old, cur, what)
@@ -348,7 +379,7 @@ func (s *Sim) justifyNode(n, old *pNode, before, after *projection, what string)
 	if old != nil && old.wire != nil && !(m.ts > old.ts) {
 		s.fail("node-not-newer", "%s: node %s replaced by announcement [%s] with timestamp %d, stored one had %d", what, id, mi.label, m.ts, old.ts)
 	}
-	if !before.hasEndpoint(n.key) && !after.hasEndpoint(n.key) {
+	if !before.hasEndpoint(n.key) && !after.hasEndpoint(n.key) && !s.endpointOfTransient(n.key, before, after) {
 		s.fail("node-without-channel", "%s: node %s accepted from [%s] although it has no known channel", what, id, mi.label)
 	}
 	logf(r, "  graph: node %s <- [%s] ts=%d", id, mi.label, m.ts)
@@ -388,7 +419,18 @@ func (s *Sim) justifyRelay(e emitted, before, after *projection, what string) {
 		if c == nil {
 			c = after.chans[m.scid]
 		}
-		if c == nil || !bytes.Equal(c.wire, mi.wire) {
+		entered := c != nil && bytes.Equal(c.wire, mi.wire)
+		if !entered {
+			if ac := after.chans[m.scid]; ac != nil && bytes.Equal(ac.wire, mi.wire) {
+				entered = true
+			}
+		}
+		if !entered && s.everCAWire != nil {
+			s.storedMu.Lock()
+			entered = s.everCAWire[string(mi.wire)]
+			s.storedMu.Unlock()
+		}
+		if !entered {
 			s.fail("relay-unaccepted", "%s: channel_announcement [%s] relayed (%s) although it never entered the graph", what, mi.label, e.via)
 		}
 		if !m.sigsOK() {
@@ -412,6 +454,16 @@ func (s *Sim) justifyRelay(e emitted, before, after *projection, what string) {
 		}
 		if !mi.fresh {
 			s.fail("relay-stale", "%s: channel_update [%s] (ts %d) relayed (%s) although at every delivery the graph already held an equal or newer one", what, mi.label, m.ts, e.via)
+		}
+		if s.everStored != nil {
+			s.storedMu.Lock()
+			was := s.everStored[storedKey{m.scid, m.dir(), m.ts}]
+			s.storedMu.Unlock()
+			r.Count("relay_applied_checks")
+			if !was {
+				s.fail("relay-unapplied", "%s: channel_update [%s] (ts %d) relayed (%s) although a policy with that timestamp was never stored for %s/%d: the update was not applied (refused at write time, or its channel had left the graph) and still went out",
+					what, mi.label, m.ts, e.via, scidStr(m.scid), m.dir())
+			}
 		}
 		r.Count("relayed_chan_update")
 	case typeNodeAnn:
